@@ -168,10 +168,21 @@ def judge(ctx, tracefile, invs, label, confirm=True):
         seen.add(sig)
         obs = [x for x in excerpt if x.get("ev") in ("persist", "resp", "publish", "crash", "hung", "end")]
         what = "%s fails on the real Commander; observable history: %s" % (inv, json.dumps(obs)[:1200])
-        if confirm:
+        # the schedule to replay is the behaviour file the execution was driven by (the steps echoed in the
+        # trace leave out actions the implementation did not follow, e.g. a store failure it survived)
+        schedule = [x for x in e if x.get("ev") == "step"]
+        srcfile = os.path.join(ctx.path("behaviours"), str(excerpt[0].get("src")))
+        if os.path.isfile(srcfile):
+            schedule = common.read_ndjson(srcfile)[1:]
+            # store failures: the error each crash step injected in the recorded execution
+            flavours = [x.get("flavour", -1) for x in e if x.get("ev") in ("crash", "storefail-survived", "crash-skipped")]
+            crashes = [st for st in schedule if st.get("a") == "crash"]
+            if len(flavours) == len(crashes):
+                for st, fl in zip(crashes, flavours):
+                    st["flavour"] = fl
+        if confirm and not str(excerpt[0].get("src", "")).startswith("free-"):
             k = ctx.coverage.get("confirmation_replays", 0)
             ctx.coverage["confirmation_replays"] = k + 2
-            schedule = [x for x in e if x.get("ev") == "step"]
             if not (rerun_fails(ctx, excerpt[0], schedule, inv, k) and rerun_fails(ctx, excerpt[0], schedule, inv, k + 1)):
                 ctx.coverage["unconfirmed_observations"] = ctx.coverage.get("unconfirmed_observations", 0) + 1
                 ctx.notes.append("UNCONFIRMED: %s (%s) was observed once and did not reproduce when its behaviour was replayed alone twice; dropped" % (inv, sig))
@@ -180,7 +191,7 @@ def judge(ctx, tracefile, invs, label, confirm=True):
                     seen.discard(sig)   # one more occurrence of the same shape gets a chance
                 continue
         ctx.violation(sig, what, {"kind": "engine-trace", "header": excerpt[0],
-                                  "schedule": [x for x in e if x.get("ev") == "step"],
+                                  "schedule": schedule,
                                   "observed": obs, "src": excerpt[0].get("src")})
 
 
